@@ -136,6 +136,28 @@ def tables(p):
     return rules, terms
 
 
+def declared_priorities(g):
+    """priorities as WRITTEN in the grammar text: {name: N} for every definition `name.N: ...` (rules and terminals);
+    independent of lark's loader"""
+    import re
+    out = {}
+    for m in re.finditer(r'(?m)^[ \t]*[?!]*(\w+)\.(-?\d+)[ \t]*:', g):
+        out[m.group(1)] = int(m.group(2))
+    return out
+
+
+def declared_tables(g, p):
+    """tables(p) with the priorities replaced by the DECLARED ones: every compiled alternative of a rule written
+    `name.N:` has priority N (None without a declaration; helper rules of EBNF operators have none), a terminal written
+    `T.N:` has priority N (0 without).  This is what the optimum is measured with and what the loaded tables are
+    compared against - the priorities on lark's own Rule objects are an observation, not the reference."""
+    rules, terms = tables(p)
+    decl = declared_priorities(g)
+    rules = [dict(r, prio=decl.get(r['origin'])) for r in rules]
+    terms = {n: dict(t, prio=decl.get(n, 0)) for n, t in terms.items()}
+    return rules, terms
+
+
 def gen_ignore_grammar(rng, regexps=None):
     """Grammar for the dynamic lexers whose %ignore terminals overlap its own terminals: string literals over
     {a,b} as terminals, one to three %ignore'd literals of different lengths chosen among strings that are a
@@ -844,6 +866,162 @@ def coq_graph_case(root, p, timeout=20):
     obs = 'None' if res is None else '(Some %s)' % dt(res)
     return ('(let r := fun k : nat => nth k %s (mkRule 0 []) in (%s, %s, %s, %s))'
             % (L(rule_terms), L(fams) if fams else '(@nil (nlabel nat * family nat))', L(tab), label(0), obs)), res
+
+
+def coq_gtft_case(root, p, resolve, timeout=20, max_events=400):
+    """Run an instrumented ForestToParseTree (rule-identity callbacks; AmbiguousIntermediateExpander around them in
+    resolve_ambiguity=False mode, as TreeForestTransformer._call_rule_func does; use_cache=False) on the forest and
+    emit the case for gtft_ok of Forest/GraphTftCheck.v: every callback with what it returned / received.
+    Values are rendered as ordered alternatives: `_iambig`/`_inter` and the `_ambig` a rule callback returns are
+    multiplied out in the order AmbiguousIntermediateExpander produces them.  Returns (case or None, result, n_events)."""
+    from lark import Tree, Token
+    from lark.visitors import Discard
+    from lark.parse_tree_builder import AmbiguousIntermediateExpander
+    from lark.parsers.earley_forest import ForestToParseTree, ForestSumVisitor, TokenNode
+    maps = {}
+    nodes0 = export_graph(root, p, maps)
+    ids, tids = maps['ids'], maps['tids']
+    rules, terms = tables(p)
+    nts, tms = {}, {}
+
+    def nt(n):
+        return nts.setdefault(n, len(nts))
+
+    def tm(n):
+        return tms.setdefault(n, len(tms))
+    rule_terms = []
+    for r in rules:
+        rule_terms.append('(mkRule %d %s)' % (nt(r['origin']), L(['(T %d)' % tm(n) if t else '(NT %d)' % nt(n)
+                                                                  for t, n in r['exp']]) if r['exp'] else '(@nil symbol)'))
+    trace = []
+
+    def conv(t):
+        if isinstance(t, Token):
+            return '(ALeaf %d %d)' % (tm(str(t.type)), tids[id(t)])
+        if t.data == '_ambig':
+            return '(AAmb %s)' % L([conv(c) for c in t.children])
+        return '(ANode (r %d) %s)' % (int(t.data), L([conv(c) for c in t.children]) if t.children else '(@nil (atree nat))')
+
+    def flat_children(c):
+        c = list(c)
+        if c and isinstance(c[0], Tree) and c[0].data == '_iambig':
+            out = []
+            for gc in c[0].children:
+                for a in flat_children(gc.children):
+                    out.append(a + [conv(x) for x in c[1:]])
+            return out
+        return [[conv(x) for x in c]]
+
+    def val(v, packed_under_symbol=False):
+        if v is Discard:
+            return None
+        if isinstance(v, list):
+            return flat_children(v)
+        if isinstance(v, Tree) and v.data == '_iambig':
+            return flat_children([v])
+        if packed_under_symbol and isinstance(v, Tree) and v.data == '_ambig':
+            return [[conv(c)] for c in v.children]
+        return [[conv(v)]]
+
+    def alts(a):
+        return L([L(x) if x else '(@nil (atree nat))' for x in a]) if a else '(@nil (list (atree nat)))'
+
+    def oalts(a):
+        return 'None' if a is None else '(Some %s)' % alts(a)
+    cbs = {r: (lambda i: (lambda cs: Tree(str(i), cs)))(i) for i, r in enumerate(p.rules)}
+    if not resolve:
+        cbs = {r: AmbiguousIntermediateExpander(Tree, f) for r, f in cbs.items()}
+
+    class T(ForestToParseTree):
+        def visit_symbol_node_in(self, node):
+            r = super().visit_symbol_node_in(node)
+            trace.append(('in', ids[id(node)], [ids[id(x)] for x in (r or [])]))
+            return r
+
+        def visit_packed_node_in(self, node):
+            r = super().visit_packed_node_in(node)
+            trace.append(('in', ids[id(node)], [ids[id(x)] for x in (r or [])]))
+            return r
+
+        def visit_token_node(self, tok):
+            trace.append(('tok', tok))
+            return super().visit_token_node(tok)
+
+        def on_cycle(self, node, path):
+            trace.append(('cycle', ids[id(node)], [ids[id(q)] for q in path]))
+            return super().on_cycle(node, path)
+
+        def transform_symbol_node(self, node, data):
+            r = super().transform_symbol_node(node, data)
+            trace.append(('out', ids[id(node)], [val(d, True) for d in data], val(r)))
+            return r
+
+        def transform_intermediate_node(self, node, data):
+            r = super().transform_intermediate_node(node, data)
+            trace.append(('out', ids[id(node)], [val(d) for d in data], val(r)))
+            return r
+
+        def transform_packed_node(self, node, data):
+            r = super().transform_packed_node(node, data)
+            trace.append(('out', ids[id(node)], [val(d) for d in data], val(r, not node.parent.is_intermediate)))
+            return r
+    fsv = p.parser.parser.forest_sum_visitor
+    tr = T(Tree, cbs, fsv and fsv(), resolve, False)
+    res = with_timeout(timeout, tr.transform, root)
+    if len(trace) > max_events:
+        return None, res, len(trace)
+    nodes = export_graph(root, p)          # after the walk: `children` order as the walk saw it
+    parent = {}
+    for i, nd in enumerate(nodes):
+        if nd['k'] == 'S':
+            for k in nd['fams']:
+                parent[k] = i
+
+    def label(i):
+        nd = nodes[i]
+        if nd['k'] == 'T':
+            return '(NTok nat %d %d 0 0)' % (tm(nd['term']), nd['tid'])
+        if nd['inter']:
+            ri, ptr = nd['name'].split('.')
+            return '(NInter nat (r %s) %s %d %d)' % (ri, ptr, nd['start'], nd['end'])
+        return '(NSym nat %d %d %d)' % (nt(str(nd['name'])), nd['start'], nd['end'])
+    lets = []
+    for i, nd in enumerate(nodes):
+        if nd['k'] != 'P':
+            lets.append('let n%d := %s in ' % (i, label(i)))
+    for i, nd in enumerate(nodes):
+        if nd['k'] == 'P':
+            o = lambda x: 'None' if x is None else '(Some n%d)' % x
+            lets.append('let f%d := (r %d, %s, %s) in ' % (i, nd['rule'], o(nd['left']), o(nd['right'])))
+
+    def tnode(i):
+        return '(TP n%d f%d)' % (parent[i], i) if nodes[i]['k'] == 'P' else '(TS n%d)' % i
+
+    def tnodes(xs):
+        return L([tnode(x) for x in xs]) if xs else '(@nil (tnode nat))'
+    evs = []
+    for e in trace:
+        if e[0] == 'in':
+            evs.append('(TIn %s %s)' % (tnode(e[1]), tnodes(e[2])))
+        elif e[0] == 'tok':
+            evs.append('(TTok %d %d)' % (tm(str(e[1].type)), tids[id(e[1])]))
+        elif e[0] == 'cycle':
+            evs.append('(TCycle n%d %s)' % (e[1], tnodes(e[2])))
+        else:
+            evs.append('(TOut %s %s %s)' % (tnode(e[1]), L([alts(d) for d in e[2]]) if e[2] else '(@nil (aalts nat))',
+                                          oalts(e[3])))
+    fams, tab = [], []
+    for i, nd in enumerate(nodes):
+        if nd['k'] == 'S':
+            for k in nd['fams']:
+                fams.append('(n%d, f%d)' % (i, k))
+            tab.append('(n%d, %s)' % (i, L(['f%d' % k for k in nd['order']])))
+    ores = 'None' if res is None else '(Some %s)' % alts([[conv(res)]])
+    case = ('(let r := fun k : nat => nth k %s (mkRule 0 []) in %s(%s, %s, n0, %s, %s, %s))'
+            % (L(rule_terms), ''.join(lets), L(fams) if fams else '(@nil (nlabel nat * family nat))',
+               L(tab) if tab else '(@nil (nlabel nat * list (family nat)))', 'true' if resolve else 'false',
+               L(evs) if evs else '(@nil (tev nat))', ores))
+    return case, res, len(trace)
 
 
 def trace_discipline(events, single):
